@@ -141,12 +141,24 @@ fn format_binary_expr(ctx: &FormatContext, plan: &FormatPlan, expr: &LuaBinaryEx
     let left_docs = format_expr(ctx, plan, &left);
     let right_docs = format_expr(ctx, plan, &right);
     let space_rule = space_around_binary_op(op_token.get_op(), ctx.config);
-    let force_space_before = op_token.get_op() == BinaryOperator::OpConcat
-        && space_rule == SpaceRule::NoSpace
-        && left
-            .syntax()
-            .last_token()
-            .is_some_and(|token| token.kind() == LuaTokenKind::TkFloat.into());
+    // With spacing around the operator turned off, keep a blank wherever the neighbouring
+    // tokens would otherwise be read differently (`1 ..`, `.. ...`, `a - -b`).
+    let no_space = space_rule == SpaceRule::NoSpace;
+    let force_space_before = no_space
+        && tokens_fuse_without_space(
+            left.syntax().last_token().as_ref(),
+            Some(op_token.syntax()),
+        );
+    let force_space_after = no_space
+        && tokens_fuse_without_space(
+            Some(op_token.syntax()),
+            right.syntax().first_token().as_ref(),
+        );
+    let space_after_op = if force_space_after {
+        ir::space()
+    } else {
+        space_rule.to_ir()
+    };
 
     if ir::ir_has_forced_line_break(&left_docs)
         && should_attach_short_binary_tail(op_token.get_op(), &right, &right_docs)
@@ -158,7 +170,7 @@ fn format_binary_expr(ctx: &FormatContext, plan: &FormatPlan, expr: &LuaBinaryEx
             docs.push(space_rule.to_ir());
         }
         docs.push(ir::source_token(op_token.syntax().clone()));
-        docs.push(space_rule.to_ir());
+        docs.push(space_after_op);
         docs.extend(right_docs);
         return docs;
     }
@@ -173,7 +185,7 @@ fn format_binary_expr(ctx: &FormatContext, plan: &FormatPlan, expr: &LuaBinaryEx
             docs.push(space_rule.to_ir());
         }
         docs.push(ir::source_token(op_token.syntax().clone()));
-        docs.push(space_rule.to_ir());
+        docs.push(space_after_op);
         docs.extend(right_docs);
         return docs;
     }
@@ -183,7 +195,7 @@ fn format_binary_expr(ctx: &FormatContext, plan: &FormatPlan, expr: &LuaBinaryEx
         ir::indent(vec![
             continuation_break_ir(force_space_before || space_rule != SpaceRule::NoSpace),
             ir::source_token(op_token.syntax().clone()),
-            space_rule.to_ir(),
+            space_after_op,
             ir::list(right_docs),
         ]),
     ])]
@@ -3394,17 +3406,43 @@ fn build_binary_chain_one_per_line(
 fn build_binary_chain_segment(
     ctx: &FormatContext,
     plan: &FormatPlan,
-    _previous: &LuaExpr,
+    previous: &LuaExpr,
     operand: &LuaExpr,
     op_token: &LuaSyntaxToken,
     op: BinaryOperator,
 ) -> (bool, Vec<DocIR>) {
     let space_rule = space_around_binary_op(op, ctx.config);
+    let no_space = space_rule == SpaceRule::NoSpace;
+    let force_space_before = no_space
+        && tokens_fuse_without_space(previous.syntax().last_token().as_ref(), Some(op_token));
+    let force_space_after = no_space
+        && tokens_fuse_without_space(Some(op_token), operand.syntax().first_token().as_ref());
     let mut segment = Vec::new();
     segment.push(ir::source_token(op_token.clone()));
-    segment.push(space_rule.to_ir());
+    if force_space_after {
+        segment.push(ir::space());
+    } else {
+        segment.push(space_rule.to_ir());
+    }
     segment.extend(format_expr(ctx, plan, operand));
-    (space_rule != SpaceRule::NoSpace, segment)
+    (!no_space || force_space_before, segment)
+}
+
+/// Whether two tokens written without a blank between them would be lexed as something else:
+/// `-` `-` starts a comment, a numeral followed by `..` is a malformed number, and `..` next to
+/// `...` (or to a numeral starting with `.`) merges into one run of dots.
+fn tokens_fuse_without_space(left: Option<&LuaSyntaxToken>, right: Option<&LuaSyntaxToken>) -> bool {
+    let (Some(left), Some(right)) = (left, right) else {
+        return false;
+    };
+    let left_is_number = matches!(
+        left.kind().to_token(),
+        LuaTokenKind::TkInt | LuaTokenKind::TkFloat | LuaTokenKind::TkComplex
+    );
+    let (left_text, right_text) = (left.text(), right.text());
+    (left_text.ends_with('-') && right_text.starts_with('-'))
+        || (left_text.ends_with('.') && right_text.starts_with('.'))
+        || (left_is_number && right_text.starts_with('.'))
 }
 
 fn continuation_break_ir(flat_space: bool) -> DocIR {
